@@ -25,44 +25,96 @@ def run(repo, R):
     p1, p2, ptol = scr.params[:3]
     D = Defs(fn)
     # ---------------------------------------------------------------- CMP: returns
-    rets = [n for n in walk_no_nested(fn) if isinstance(n, ast.Return)]
-    pc = path_conditions(fn)
-    final = None
-    none_ret = None
-    for r in rets:
-        conds = pc.get(id(r), ())
-        if isinstance(r.value, ast.Constant) and r.value.value is False:
-            # must be under `tol_screen is None`
-            # `not tol` is equivalent: tol == 0 gives an infinite cutoff, i.e. no screening either
-            none_forms = {f"{ptol} is None", f"not {ptol}", f"{ptol} == None", f"{ptol} is None or {ptol} == 0"}
-            ok = len(conds) >= 1 and any(ast.unparse(t) in none_forms and pol for t, pol in conds)
-            R.check(ok, "CMP", scr.site, f"return False under [{' and '.join(ast.unparse(t) for t, _ in conds)}]",
-                    "an unconditional-looking `False` is returned on a path other than `tol_screen is None`",
-                    where=scr.where(r), expected=f"if {ptol} is None: return False")
-            none_ret = r if ok else none_ret
-        else:
-            if final is not None:
-                raise AnalysisError("CMP", "more than one computed return in is_integral_screened", scr.where(r))
-            final = r
-    if final is None:
-        raise AnalysisError("CMP", "computed return not found", scr.where())
-    R.check(none_ret is not None and none_ret.lineno < final.lineno, "CMP", scr.site, "None path first",
-            "`tol_screen=None` must mean no screening and be decided before anything is computed from it",
-            where=scr.where(), expected=f"if {ptol} is None: return False")
-    # the None test must precede every use of tol_screen in arithmetic
-    first_use = min([n.lineno for n in ast.walk(fn) if isinstance(n, ast.Name) and n.id == ptol and isinstance(n.ctx, ast.Load)
-                     and not _in_guard(fn, n)] or [10**9])
-    if none_ret is not None:
-        R.check(none_ret.lineno < first_use, "CMP", scr.site, "None test precedes use", "tol_screen is used before the None test",
-                where=scr.where(none_ret))
+    # follow every path of the predicate for the three kinds of tolerance (None / a bool / a number): what is returned or raised
+    def decide(test, kind):
+        """truth value of a test that only looks at the kind of the tolerance, else None"""
+        txt = ast.unparse(test)
+        if txt in (f"{ptol} is None", f"{ptol} == None"):
+            return kind == "none"
+        if txt in (f"{ptol} is not None", f"{ptol} != None"):
+            return kind != "none"
+        if txt == f"isinstance({ptol}, bool)":
+            return kind == "bool"
+        if txt == f"not {ptol}":
+            return kind == "none"  # for numbers: tol == 0 gives an infinite cutoff, i.e. no screening either
+        if txt == ptol:
+            return kind != "none"
+        if isinstance(test, ast.UnaryOp) and isinstance(test.op, ast.Not):
+            v = decide(test.operand, kind)
+            return None if v is None else not v
+        if isinstance(test, ast.BoolOp):
+            vals = [decide(v, kind) for v in test.values]
+            if isinstance(test.op, ast.Or):
+                return True if any(v is True for v in vals) else (False if all(v is False for v in vals) else None)
+            return False if any(v is False for v in vals) else (True if all(v is True for v in vals) else None)
+        return None
+
+    def follow(stmts, states, kind, out):
+        for st_ in stmts:
+            if not states:
+                return []
+            if isinstance(st_, ast.Return):
+                for env in states:
+                    v = st_.value
+                    k = 0
+                    while isinstance(v, ast.Name) and v.id in env and k < 6:
+                        v = env[v.id]
+                        k += 1
+                    out.append(("return", st_, v, env))
+                return []
+            if isinstance(st_, ast.Raise):
+                out.extend(("raise", st_, None, env) for env in states)
+                return []
+            if isinstance(st_, ast.Assign) and len(st_.targets) == 1 and isinstance(st_.targets[0], ast.Name):
+                states = [dict(env, **{st_.targets[0].id: st_.value, "__used__": env.get("__used__", ()) + (st_,)}) for env in states]
+                continue
+            if isinstance(st_, ast.If):
+                val = decide(st_.test, kind)
+                branches = [st_.body if val else st_.orelse] if val is not None else [st_.body, st_.orelse]
+                nxt = []
+                for b in branches:
+                    nxt.extend(follow(b, [dict(e) for e in states], kind, out))
+                states = nxt
+                continue
+        return states
+
+    outs = {}
+    for kind in ("none", "bool", "num"):
+        o = []
+        rest = follow(fn.body, [{}], kind, o)
+        if rest:
+            o.append(("fall", None, None, rest[0]))
+        outs[kind] = o
+    # None: no screening, decided without computing anything from the tolerance
+    okn = bool(outs["none"]) and all(k == "return" and isinstance(v, ast.Constant) and v.value is False for k, _s, v, _e in outs["none"])
+    R.check(okn, "CMP", scr.site, "tol_screen=None -> False",
+            "`tol_screen=None` must mean no screening: every path for None has to return False",
+            where=scr.where(), expected=f"if {ptol} is None: return False", found=[(k, ast.unparse(v)[:40] if v is not None else None) for k, _s, v, _e in outs["none"]])
+    used_none = [a for k, _s, _v, env in outs["none"] for a in env.get("__used__", ()) if ptol in {n.id for n in ast.walk(a.value) if isinstance(n, ast.Name)}]
+    R.check(not used_none, "CMP", scr.site, "None test precedes use", "tol_screen is used in a computation on the path taken for None",
+            where=scr.where(used_none[0]) if used_none else scr.where())
     # bool rejected
-    boolrej = False
-    for st in fn.body:
-        if isinstance(st, ast.If) and terminates(st.body) and isinstance(st.body[-1], ast.Raise) and \
-                ast.unparse(st.test) == f"isinstance({ptol}, bool)":
-            boolrej = True
-    R.check(boolrej, "CMP", scr.site, "bool rejected", "a bool tolerance must be rejected (True would silently mean tol=1)",
-            where=scr.where(), expected=f"if isinstance({ptol}, bool): raise TypeError")
+    okb = bool(outs["bool"]) and all(k == "raise" for k, _s, _v, _e in outs["bool"])
+    R.check(okb, "CMP", scr.site, "bool rejected", "a bool tolerance must be rejected (True would silently mean tol=1)",
+            where=scr.where(), expected=f"if isinstance({ptol}, bool): raise TypeError", found=[k for k, _s, _v, _e in outs["bool"]])
+    # a number: one comparison decides
+    nums = [(k, s_, v) for k, s_, v, _e in outs["num"] if not (k == "return" and isinstance(v, ast.Constant) and v.value is False and decide_is_zero_path(s_, fn, ptol))]
+    comps = [(s_, v) for k, s_, v in nums if k == "return"]
+    if [k for k, _s, _v in nums if k != "return"]:
+        R.fail("CMP", scr.site, "numeric tolerance", "a numeric tolerance can end in an exception / without a result", where=scr.where())
+        return "incomplete"
+    consts = [(s_, v) for s_, v in comps if isinstance(v, ast.Constant)]
+    for s_, v in consts:
+        R.fail("CMP", scr.site, f"return {ast.unparse(v)} for a numeric tolerance",
+               f"`{ast.unparse(v)}` is returned for a numeric tolerance on a path that does not compare the centre distance with the cutoff: "
+               "whether a block is kept is then decided by something other than the documented rule", where=scr.where(s_),
+               expected=f"only `{ptol} is None` returns False without a comparison")
+    comps = [(s_, v) for s_, v in comps if not isinstance(v, ast.Constant)]
+    texts = {ast.unparse(v) for _s, v in comps}
+    if len(texts) != 1:
+        raise AnalysisError("CMP", f"expected one screening decision for a numeric tolerance, found {sorted(texts)[:3]}", scr.where())
+    final = ast.Return(value=comps[0][1])
+    ast.copy_location(final, comps[0][0])
     nc = normal_compare(final.value)
     if nc is None:
         R.fail("CMP", scr.site, ast.unparse(final), "the decision is not a single comparison distance > cutoff", where=scr.where(final))
@@ -198,6 +250,14 @@ def run(repo, R):
             "identically on the four assembly branches. Not decided: the magnitude bound on removed elements (numerical).")
 
 
+def decide_is_zero_path(ret_stmt, fn, ptol):
+    """`if not tol_screen: return False` also catches the number 0: that path returns False legitimately"""
+    for st in ast.walk(fn):
+        if isinstance(st, ast.If) and ret_stmt in ast.walk(st) and ast.unparse(st.test) in (f"not {ptol}", f"{ptol} is None or {ptol} == 0"):
+            return True
+    return False
+
+
 def _in_guard(fn, name_node):
     """Is this use of the tolerance inside an isinstance(...)/`is None` test or an error message?"""
     for st in fn.body:
@@ -218,6 +278,17 @@ def screen_exprs(repo):
     rets = [n for n in walk_no_nested(fn) if isinstance(n, ast.Return) and not (isinstance(n.value, ast.Constant))]
     if len(rets) != 1:
         raise AnalysisError("CMP", "computed return of is_integral_screened not found", scr.where())
+    val = rets[0].value
+    k = 0
+    while isinstance(val, ast.Name) and k < 6:
+        # a single-exit form `screened = ...; return screened`: the non-constant assignment is the decision
+        cands = [st.value for st in ast.walk(fn) if isinstance(st, ast.Assign) and len(st.targets) == 1 and isinstance(st.targets[0], ast.Name)
+                 and st.targets[0].id == val.id and not isinstance(st.value, ast.Constant)]
+        if len(cands) != 1:
+            break
+        val = cands[0]
+        k += 1
+    rets = [ast.copy_location(ast.Return(value=val), rets[0])]
     nc = normal_compare(rets[0].value)
     if nc is None:
         raise AnalysisError("CMP", "screening decision is not a comparison", scr.where(rets[0]))
